@@ -21,6 +21,9 @@ type OracleC09 struct {
 	// primaries that entered their view while processing a recovery message (the library then
 	// arms the backup timeout for them instead of proposing at once), per (height, view)
 	viaRecovery map[hv]bool
+	// "nodes catch up from recovery messages": set before a recovery message is handed to a
+	// node that has nothing of its current view yet and must take the proposal out of it
+	recPre *Payload
 }
 
 func NewOracleC09(s *Sim) *OracleC09 {
@@ -96,7 +99,56 @@ func (o *OracleC09) OnOut(n *Node, st *Step, out *Out) {
 	}
 }
 
+func (o *OracleC09) BeforeCall(n *Node, st *Step) {
+	o.recPre = nil
+	s := o.s
+	d := n.d
+	if d == nil || st.Op != OpReceive || st.P == nil || st.P.T != dbft.RecoveryMessageType || s.sc.VerdictPM > 0 {
+		return
+	}
+	p := st.P
+	rm, ok := p.Body.(*RecMsg)
+	if !ok || rm.Lax || rm.PrepReqP == nil || p.H != d.BlockIndex || p.V != d.ViewNumber || int(p.Idx) >= len(d.Validators) {
+		return
+	}
+	// the receiver: a voting validator with nothing at stake in this view
+	if d.MyIndex < 0 || n.flagWO || n.accepted || d.BlockSent() || d.RequestSentOrReceived() || d.CommitSent() || d.PreCommitSent() || d.ViewChanging() || d.IsPrimary() {
+		return
+	}
+	// the proposal inside: the authentic one of this view's primary, which is an honest node
+	e := rm.PrepReqP
+	prim := d.GetPrimaryIndex(d.ViewNumber)
+	if e.T != dbft.PrepareRequestType || e.H != p.H || e.V != p.V || uint(e.Idx) != prim || !witnessOK(e, d.Validators) {
+		return
+	}
+	honest := false
+	for _, m := range s.nodes {
+		if m.kind == FHonest && s.sc.IndexAt(p.H, m.ident) == int(prim) {
+			honest = true
+		}
+	}
+	if !honest {
+		return
+	}
+	for _, a := range s.authentic {
+		if a.T == dbft.PrepareRequestType && a.H == e.H && a.V == e.V && a.Idx == e.Idx && a.Hash() == e.Hash() {
+			o.recPre = e
+			return
+		}
+	}
+}
+
 func (o *OracleC09) AfterCall(n *Node, st *Step) {
+	if e := o.recPre; e != nil {
+		o.recPre = nil
+		if d := n.d; d != nil && st.Panic == nil && st.PostBI == st.PreBI && st.PostV == st.PreV && !n.accepted && !d.BlockSent() {
+			if !d.RequestSentOrReceived() {
+				o.s.Violate("C09", "proposal_in_recovery_message_not_taken", fmt.Sprintf("%s at height %d view %d held nothing of this view (no proposal, no vote of its own, not asking for a view change), was given a recovery message of this view carrying the primary's authentic proposal %s, and still holds no proposal afterwards: it cannot catch up from recovery messages", n, st.PreBI, st.PreV, e), n.id)
+				return
+			}
+			o.s.note("proposal_taken_from_recovery_message")
+		}
+	}
 	if n.d == nil || st.Op != OpReceive || st.P == nil || st.P.T != dbft.RecoveryMessageType {
 		return
 	}
@@ -274,9 +326,22 @@ func (o *OracleC09) crashLock(h uint32) bool {
 	}
 	free := 0
 	view := -1
+	// the view of the honest live validators
+	top := -1
+	for _, m := range o.live() {
+		if m.kind == FHonest && m.d != nil && int(m.d.ViewNumber) > top {
+			top = int(m.d.ViewNumber)
+		}
+	}
 	for _, m := range o.live() {
 		if m.d == nil || m.d.BlockIndex != h {
 			return false
+		}
+		// a budgeted faulty validator that restarted and is locked by its own earlier
+		// (pre)commit to a view below the one the honest validators are in is as good as
+		// stopped: it never leaves that view, and having been heard it is not counted as lost
+		if lv, isLocked := ownLockView(m); m.kind != FHonest && isLocked && int(lv) < top && int(m.d.ViewNumber) < top {
+			continue
 		}
 		if view >= 0 && int(m.d.ViewNumber) != view {
 			return false
